@@ -218,7 +218,12 @@ META = {
                 "open() returns a connection, the server's messages began with exactly the proving exchange (mechanisms offering the client's, a well-formed challenge whose nonce "
                 "extends the client's, outcome ok with the server signature computed from the password); the first message that departs from it fails at once with an error from "
                 "open() and nothing sent on; outcome ok without or with a wrong signature is refused. Both models are run against the real listener / client every run on "
-                "abstracted scripts; concrete byte-level scripts (credential variants, malformed, fragmented, out-of-turn frames, 45 server tamperings) are judged by the direct oracle.",
+                "abstracted scripts; concrete byte-level scripts (credential variants, malformed, fragmented, out-of-turn frames, 45 server tamperings) are judged by the direct oracle. "
+                "From the bytes on the wire (Frame/SaslFrame.v, Auth/Plain.v, Auth/SaslWire.v): C19_sasl_frame_roundtrip - the SASL frame codec reads back what it writes, any of the five "
+                "frames, any field values; C19_malformed_sasl_frame_is_an_error; C19_plain_credentials_exact - the PLAIN check passes on exactly the responses authzid NUL user NUL "
+                "password; C19_plain_listener_any_frame_bytes - for EVERY byte string sent as the first frame to a PLAIN listener, either it decodes to a well-typed sasl-init whose "
+                "initial response carries the configured user and password (then outcome ok and the AMQP header follow), or the negotiation fails at once with an error from accept() "
+                "and nothing granted: this discharges the `CInitOk` letter of the action alphabet down to bytes for PLAIN. Run against the real FrameCodec and a real PLAIN listener every run (sfr).",
         "design_ref": "DESIGN.md section 0.8, C19",
         "note": "Trusted: Coq kernel, extraction, the harness's own SCRAM arithmetic (RFC vectors) which decides the validity class of a message. Fixed defects: PLAIN accepted extra "
                 "NUL-separated fields (6ee43ef); SCRAM listener accepted a second init (51ebee0). Known finding (C15): the iteration count the server names is not capped.",
